@@ -979,6 +979,37 @@ impl C03 {
 		false
 	}
 
+	/// Exact shape of a suspected defect: the peer's update_fail_htlc for one of these parts reached S, and S closed
+	/// the channel (ChannelForceClosed monitor update) while an earlier monitor update of that channel was still in
+	/// flight -- a failure that is only parked until that update completes is dropped together with the channel.
+	fn failure_parked_at_close(&self, sim: &Sim, parts: &[((ChannelId, usize, u64), Htlc)]) -> bool {
+		let _ = sim;
+		let hist = crate::rec::hist_since(0);
+		for (k, h) in parts.iter() {
+			if !h.fail_delivered {
+				continue;
+			}
+			let mut inflight: BTreeSet<u64> = BTreeSet::new();
+			for (_, e) in hist.iter() {
+				match e {
+					crate::rec::HEvent::PersistUpdate { node: S, chan, update_id: Some(id), in_progress, steps, .. } if *chan == k.0 => {
+						if steps.iter().any(|s| s == "ChannelForceClosed") && !inflight.is_empty() {
+							return true;
+						}
+						if *in_progress {
+							inflight.insert(*id);
+						}
+					},
+					crate::rec::HEvent::PersistCompleted { node: S, chan, update_id } if *chan == k.0 => {
+						inflight.remove(update_id);
+					},
+					_ => {},
+				}
+			}
+		}
+		false
+	}
+
 	/// the running manager descends from a snapshot that was written before `step` and loaded after it
 	fn is_blind(&self, step: u64) -> bool {
 		self.blind.iter().any(|(a, b)| *a < step && step <= *b)
@@ -1449,7 +1480,13 @@ impl C03 {
 					)
 					// exact signature of a suspected defect: a crash lost monitor updates that were still in flight after
 					// the payment was sent (e.g. S had already broadcast the commitment transaction they describe)
-					.with_key(if self.broadcast_before_durable(sim, &parts) { "no-terminal-event/pending/restart-lost-inflight-monitor-updates".to_string() } else { format!("no-terminal-event/{}", recent.get(&m.id.0).unwrap_or(&"unlisted")) }));
+					.with_key(if self.broadcast_before_durable(sim, &parts) {
+						"no-terminal-event/pending/restart-lost-inflight-monitor-updates".to_string()
+					} else if self.failure_parked_at_close(sim, &parts) {
+						"no-terminal-event/failure-parked-behind-inflight-monitor-update-lost-on-close".to_string()
+					} else {
+						format!("no-terminal-event/{}", recent.get(&m.id.0).unwrap_or(&"unlisted"))
+					}));
 				}
 			}
 			if !m.api_ok && terminal && !m.api.contains("Ok(") {
